@@ -54,6 +54,7 @@ class Ctx:
         self.notes = {}
         self.names = set()
         self.inre = False        # some regex membership constraint is on the path
+        self.loop_steps = {}     # unfoldings of loops without a registered invariant on this path
 
     # -- assumptions ---------------------------------------------------------------------------
     def _simp(self, cond):
